@@ -572,7 +572,7 @@ def expected_allowed_in_immutable(obs):
 # --------------------------------------------------------------------------
 # the in-memory grid
 # --------------------------------------------------------------------------
-def make_nodemaker(seed_rng, store=None):
+def make_nodemaker(seed_rng, store=None, blacklist=None):
     """A real NodeMaker whose mutable/immutable file nodes keep their contents
     in a dict (storage index -> bytes).  Returns (nodemaker, store).  Passing an
     existing store gives a second, independent client of the same grid."""
@@ -689,7 +689,8 @@ def make_nodemaker(seed_rng, store=None):
             store[n.get_storage_index()] = data
             return defer.succeed(n)
 
-    nm = MemNodeMaker(None, Secrets(), None, MemUploader(), None, {"k": 3, "n": 10, "max_segment_size": 131072}, None, None)
+    nm = MemNodeMaker(None, Secrets(), None, MemUploader(), None, {"k": 3, "n": 10, "max_segment_size": 131072}, None, None,
+                      blacklist=blacklist)
     nm._verif_store = store
     return nm, store
 
